@@ -64,9 +64,14 @@ BODIES = {
     "T10": ("dates2", "dataclasses", "flat", {}, "cli"),
     "T12": ("poly", "pydantic", "flat", {}),
     "T13": ("poly2", "dataclasses", "flat", {}),
+    # the CLI's YAML loader (a module-level parser object of a third-party package): for these two bodies the frames of that package
+    # are scheduling points too
+    "T14": ("yaml_a", None, None, {}, "yaml"),
+    "T15": ("yaml_b", None, None, {}, "yaml"),
     # library use of the default registry on date-like strings, next to a CLI run that (re-)registers the datetime types in it
     "T11": ("dates", "attrs", "flat", {}, "defreg"),
 }
+YAML_DOCS = {"yaml_a": "a: 1\nb: [x, 2]\nc: {d: e}\n", "yaml_b": "- p: q\n  r: [1.5]\n- p: z\n"}
 _SOLO = {}
 _WARM = {}
 
@@ -105,10 +110,24 @@ def _cli_body(name, workdir):
     return run
 
 
+def _yaml_body(name, workdir):
+    import json as _json
+    from pathlib import Path
+    path = Path(workdir) / f"{name}.yaml"
+    path.write_text(YAML_DOCS[BODIES[name][0]])
+
+    def run():
+        from json_to_models.cli import FileLoaders
+        return _json.dumps(FileLoaders.yaml(path), sort_keys=True)
+    return run
+
+
 def _body(name, reg, whole, workdir=None):
     fw, layout, kw = BODIES[name][1:4]
     if _mode(name) == "cli":
         return _cli_body(name, workdir)
+    if _mode(name) == "yaml":
+        return _yaml_body(name, workdir)
     if whole or _mode(name) == "defreg":
         return lambda: pipeline.render(_build(name), fw, layout, **kw)
     return lambda: pipeline.render(reg, fw, layout, **kw)
@@ -183,7 +202,7 @@ def execute(case):
         for f in range(len(names)):
             sched.Execution([_body(n, _build(n), False) for n in names], [], first=f, granularity="opcode", record_tail=False).run()
     workdir = None
-    if any(_mode(n) == "cli" for n in names):
+    if any(_mode(n) in ("cli", "yaml") for n in names):
         import tempfile
         workdir = tempfile.mkdtemp(prefix="c15_")
     regs = [None if (whole or _mode(n) != "explicit") else _build(n) for n in names]
@@ -192,8 +211,9 @@ def execute(case):
         # start from a non-initial state: every body has already run once, sequentially, in this (forked) process
         for n in names:
             _body(n, None, True, workdir)()
+    marks = (sched.MARK,) + tuple(os.sep + m + os.sep for m in case.get("marks", ()))
     ex = sched.Execution(bodies, case["schedule"], first=case.get("first", 0), granularity=case["gran"],
-                         record_tail=bool(case.get("tail", True)))
+                         record_tail=bool(case.get("tail", True)), marks=marks)
     try:
         ex.run()
     finally:
@@ -314,6 +334,7 @@ def run(tier, seed):
         plans.append({"threads": ["T5", "T6"], "gran": "call", "bound": 1, "whole": True})
         plans.append({"threads": ["T5", "T6"], "gran": "line", "bound": 1, "whole": True})
         plans.append({"threads": ["T4", "T2"], "gran": "line", "bound": 1, "whole": False})
+        plans.append({"threads": ["T14", "T15"], "gran": "call", "bound": 1, "whole": True, "marks": ["ruamel"]})
         # merges whose decision compares nested models deeply (ModelMeta.__eq__ / merge_field_sets) in both threads at once
         plans.append({"threads": ["T12", "T13"], "gran": "call", "bound": 1, "whole": True})
         plans.append({"threads": ["T12", "T12"], "gran": "call", "bound": 1, "whole": True})
@@ -377,7 +398,7 @@ def run(tier, seed):
     completed = {}
     for plan in plans:
         level = [{"k": "sched", "threads": plan["threads"], "gran": plan["gran"], "whole": plan["whole"], "schedule": [], "first": f,
-                  "tail": plan["bound"] > 0, "warm": bool(plan.get("warm"))} for f in range(len(plan["threads"]))]
+                  "tail": plan["bound"] > 0, "warm": bool(plan.get("warm")), "marks": plan.get("marks", [])} for f in range(len(plan["threads"]))]
         key = f"{'+'.join(plan['threads'])}:{plan['gran']}{':whole' if plan['whole'] else ''}{':warm' if plan.get('warm') else ''}"
         for depth in range(plan["bound"] + 1):
             nxt = []
